@@ -1,7 +1,8 @@
 (* StringM_driver.ml — correspondence driver for the String model (C16).
-   stdin: one case per line   <init-hex>|<op> <op> ...
+   stdin: one case per line   <init-hex>|<op> <op> ...      (init N = new(String) without arguments)
      a<hex> assign   c<hex> concat   p<hex> append   z<n> resize   r<hex> rem   m<hex> mem
      k<hex> cmp      e<hex> eq       l len           s c_str       h hash
+     y  replace the String by a copy of itself (assign into a fresh object), delete the original
      A C P R M K E   assign / concat / append / rem / mem / cmp / eq with the String itself as argument
      f<pos>:<piece>,<piece>,...  print_to at pos; piece = L<hex> literal | S<hex> %s | D<int> %li
    argv[1] = model | spec ; one line per case, steps separated by " | ", first step = "new":
@@ -38,7 +39,7 @@ let parse_op s : sop =
   | 'k' -> OCmp (bytes_of_hex r) | 'e' -> OEq (bytes_of_hex r)
   | 'l' -> OLen | 's' -> OCStr | 'h' -> OHash
   | 'A' -> OAssignSelf | 'C' | 'P' -> OConcatSelf | 'R' -> ORemSelf | 'M' -> OMemSelf
-  | 'K' -> OCmpSelf | 'E' -> OEqSelf
+  | 'K' -> OCmpSelf | 'E' -> OEqSelf | 'y' -> OCopy
   | 'f' -> (match String.index_opt r ':' with
             | Some i -> OPrint (nat_of_int (int_of_string (String.sub r 0 i)),
                                 List.map parse_piece (split_on ',' (String.sub r (i + 1) (String.length r - i - 1))))
@@ -53,12 +54,13 @@ let () =
   read_lines (fun line ->
     match String.split_on_char '|' line with
     | [init; ops] ->
-      let init = bytes_of_hex init in
+      let noarg = (init = "N") in
+      let init = if noarg then [] else bytes_of_hex init in
       let ops = List.filter (fun s -> s <> "") (String.split_on_char ' ' ops) in
       let buf = Buffer.create 256 in
       (try
         if mode = "model" then begin
-          match sm_new init with
+          match (if noarg then Some sm_new_empty else sm_new init) with
           | None -> Buffer.add_string buf "CRASH"
           | Some b0 ->
             Buffer.add_string buf ("new;" ^ dump_model b0);
